@@ -9,7 +9,7 @@ from vf.sx.core import cur
 from vf.sx.ob import Case
 
 INTS = [0, 1, -1, 127, 128, -128, -129, 255, 256, 32767, 32768, -32768, -32769, 65535, 65536,
-        2 ** 31 - 1, 2 ** 31, -2 ** 31, -2 ** 31 - 1, 2 ** 32 - 1, 2 ** 32, 5, 5]
+        2 ** 31 - 1, 2 ** 31, -2 ** 31, -2 ** 31 - 1, 2 ** 32 - 1, 2 ** 32, 5, 5, -2 ** 63, 2 ** 63 - 1]
 FLOATS = [0.0, 1.0, -1.5, 0.1, 1 / 3, 1.2345e-5, 1.23456789, 123456.789, 1e6 + 0.1, -0.001, 2.5e-8, 99999.5, -13.206373, -123456.789012, -2300.000001, 0.0012, 1.5e-12, 3e-11, 0.123456789012, 3.0e6, 1e10, 7e-12]
 TOLS = [1e-6, 1e-3, 1e-9]
 STRS = ["", "a", "abc", "a", "é", "x y", "ALA", ""]
@@ -63,6 +63,15 @@ def check_ints(i, j, k, level):
             return "file read back is not equal to the file written"
     if got.tolist() != vals:
         return f"compress({vals}) decoded to {got.tolist()} via {comp.serialize()['encoding'] if level == 0 else 'column'}"
+    # the same values held in the narrowest integer dtype that can hold them (the dtype a column read from a file has):
+    # arithmetic inside compress() must not wrap in that dtype (e.g. abs(-128) in int8)
+    for dt in (np.int8, np.uint8, np.int16, np.uint16, np.int32, np.uint32):
+        ii = np.iinfo(dt)
+        if all(ii.min <= v <= ii.max for v in vals):
+            narrow = np.array(vals, dtype=dt)
+            got = pdbx.BinaryCIFData.deserialize(pdbx.compress(pdbx.BinaryCIFData(narrow)).serialize()).array
+            if got.tolist() != vals:
+                return f"compress({vals} as {dt.__name__}) decoded to {got.tolist()}"
     return None
 
 
@@ -104,25 +113,52 @@ def check_floats(i, j, t, level):
     return None
 
 
+class _Hang(Exception):
+    pass
+
+
+def _bounded(f, seconds=20):
+    """run f(); a call that does not return within `seconds` is reported (the code under check must terminate)"""
+    import signal
+
+    def on_alarm(signum, frame):
+        raise _Hang()
+    old = signal.signal(signal.SIGALRM, on_alarm)
+    signal.alarm(seconds)
+    try:
+        return f()
+    finally:
+        signal.alarm(0)
+        signal.signal(signal.SIGALRM, old)
+
+
 def check_nonfinite(i, which):
     import biotite.structure.io.pdbx as pdbx
     special = [float("nan"), float("inf"), -float("inf"), 1e30, -4e9][which]
-    vals = [FLOATS[i], special, 1.0]
-    arr = np.array(vals, dtype=np.float64)
-    try:
-        comp = pdbx.compress(pdbx.BinaryCIFData(arr))
-        got = pdbx.BinaryCIFData.deserialize(comp.serialize()).array
-    except (ValueError, OverflowError):
-        return None            # rejected
-    for a, g in zip(vals, got.tolist()):
-        if math.isnan(a):
-            if not math.isnan(g):
-                return f"NaN silently altered to {g!r}"
-        elif math.isinf(a):
-            if g != a:
-                return f"{a!r} silently altered to {g!r}"
-        elif abs(g - a) > 1e-6 * abs(a):
-            return f"{a!r} silently altered to {g!r} in {vals}"
+    # short columns (compression does not pay off: stored as raw bytes) and long ones (fixed-point candidates win), both precisions
+    for reps in (1, 16):
+        for dt in (np.float64, np.float32):
+            vals = [FLOATS[i], special, 1.0] * reps
+            with np.errstate(over="ignore"):
+                arr = np.array(vals, dtype=dt)
+            vals = arr.tolist()
+            try:
+                comp = _bounded(lambda: pdbx.compress(pdbx.BinaryCIFData(arr)))
+                got = pdbx.BinaryCIFData.deserialize(comp.serialize()).array
+            except (ValueError, OverflowError):
+                continue            # rejected
+            except _Hang:
+                return f"compress() of {len(vals)} {dt.__name__} values {vals[:3]} did not return within 20 s"
+            tol = 1e-6 if dt is np.float64 else 2e-6
+            for a, g in zip(vals, got.tolist()):
+                if math.isnan(a):
+                    if not math.isnan(g):
+                        return f"NaN silently altered to {g!r} ({len(vals)} {dt.__name__} values)"
+                elif math.isinf(a):
+                    if g != a:
+                        return f"{a!r} silently altered to {g!r} ({len(vals)} {dt.__name__} values)"
+                elif abs(g - a) > tol * abs(a):
+                    return f"{a!r} silently altered to {g!r} in {vals[:3]} x {reps} ({dt.__name__})"
     return None
 
 
